@@ -634,6 +634,8 @@ func (p *Preemptor) TryPreemption() (*AllocationResult, bool) {
 	// on different criteria. for example, victims could be picked up either from specific node (bin packing) or
 	// from multiple nodes (fair) given the choices.
 	var finalVictims []*Allocation
+	// space on the chosen node once the selected victims running on it are gone
+	nodeFreed := nodeCurrentAvailable[nodeID].Clone()
 	for _, victim := range victims {
 		// Victims from any node is acceptable as long as chosen node has enough space to accommodate the ask
 		// Otherwise, preempting victims from 'n' different nodes doesn't help to achieve the goal.
@@ -643,6 +645,9 @@ func (p *Preemptor) TryPreemption() (*AllocationResult, bool) {
 		// stop collecting the victims once ask resource requirement met
 		if p.ask.GetAllocatedResource().StrictlyGreaterThanOnlyExisting(victimsTotalResource) {
 			finalVictims = append(finalVictims, victim)
+			if victim.GetNodeID() == nodeID {
+				nodeFreed.AddTo(victim.GetAllocatedResource())
+			}
 		}
 		// add the victim resources to the total
 		victimsTotalResource.AddTo(victim.GetAllocatedResource())
@@ -650,6 +655,14 @@ func (p *Preemptor) TryPreemption() (*AllocationResult, bool) {
 
 	if p.ask.GetAllocatedResource().StrictlyGreaterThanOnlyExisting(victimsTotalResource) {
 		// there is shortfall, so preemption doesn't help
+		p.ask.LogAllocationFailure(common.PreemptionShortfall, true)
+		return nil, false
+	}
+
+	// The comparison above looks at the victims only and only at the resource types they have in common with the ask.
+	// Make sure that the ask really fits on the chosen node once the selected victims are gone, otherwise the victims
+	// would be preempted without any effect.
+	if !fitIn && !nodeFreed.FitIn(p.ask.GetAllocatedResource()) {
 		p.ask.LogAllocationFailure(common.PreemptionShortfall, true)
 		return nil, false
 	}
